@@ -156,8 +156,30 @@ def probes(pool, rng, sources):
             if pb:
                 src = rng.choice(sources)
                 ident = wire.can_id(5, d.pgn, src, 255)
-                out.append([("decode_tcp", wire.ebyte_frame(ident, f), {}) for f in wire.fast_frames(pb, seq, 0xFF)])
-    return out
+                fmt = rng.choice(["ebyte", "usb", "yd", "plain"])
+                frames = wire.fast_frames(pb, seq, 0xFF)
+                if fmt == "ebyte":
+                    out.append([("decode_tcp", wire.ebyte_frame(ident, f), {}) for f in frames])
+                elif fmt == "usb":
+                    out.append([("decode_usb", wire.usb_frame(ident, f), {}) for f in frames])
+                elif fmt == "yd":
+                    out.append([("decode_yacht_devices_string", wire.yd_line(ident, f).strip(), {}) for f in frames])
+                else:
+                    out.append([("decode_basic_string", wire.plain_line(5, d.pgn, src, 255, f), {}) for f in frames])
+    # the same kind of message handed over pre-assembled (the text formats that carry whole messages)
+    for d in (pool.fasts[:2] if pool.fasts else []):
+        out.append([whole_message_input(pool, d, rng, sources)])
+    return [p_ for p_ in out if p_ and p_[0] is not None]
+
+
+def whole_message_input(pool, d, rng, sources):
+    pb = pool.payload(d)
+    if not pb:
+        return None
+    src = rng.choice(sources)
+    if rng.random() < 0.5:
+        return ("decode_actisense_string", wire.actisense_line(4, d.pgn, src, 255, pb), {})
+    return ("decode_basic_string", wire.plain_line(4, d.pgn, src, 255, pb), {"already_combined": True})
 
 
 UNIT_PREFS = [{"TEMPERATURE": "C", "PRESSURE": "bar", "ANGLE": "deg", "SPEED": "kts"}, {"TEMPERATURE": "f", "PRESSURE": "PSI"}, {"ANGLE": "deg"}]
@@ -267,6 +289,11 @@ def run_shard(spec, acc):
             if rng.random() < 0.25:
                 for b in bad_inputs(pool, rng, sources)[:rng.randint(1, 4)]:
                     inputs.append(("bad", None, b))
+            if pool.fasts and rng.random() < 0.08:
+                # a fast-packet PGN arriving pre-assembled through a text format, on the same decoder
+                wi = whole_message_input(pool, rng.choice(pool.fasts), rng, sources)
+                if wi is not None:
+                    inputs.append(("whole", None, wi))
         n_bad = sum(1 for t, _, _ in inputs if t == "bad")
         acc.count("bad_inputs_given", n_bad)
         w = {"config": repr(cfg), "inputs": [[t, i[0], (i[1].hex() if isinstance(i[1], (bytes, bytearray)) else i[1])] for t, _, i in inputs][-60:]}
